@@ -467,6 +467,15 @@ theorem core_modify {g : List Id} {s : St} (h : Core g s) (c : Id) (d : Bool) (e
 theorem core_closeRouter {g : List Id} {s : St} (h : Core g s) : Core g s.closeRouter :=
   core_congr h rfl rfl rfl rfl rfl
 
+/-- `setCheckpoints` only rewrites the `cps` field of one connector (and the vertex logs) -/
+theorem core_setCheckpoints {g : List Id} {s : St} (h : Core g s) (c : Id) (vs : List Id) :
+    Core g (s.setCheckpoints c vs) := by
+  refine core_mapConns h (fun x => if x.id == c then { x with cps := vs } else x) ?_ ?_ rfl rfl rfl rfl rfl
+  · intro x; split <;> rfl
+  · intro x _ h1 h2; split
+    · exact ⟨h1, h2⟩
+    · exact ⟨h1, h2⟩
+
 
 /-! ### the operations -/
 
@@ -595,6 +604,11 @@ theorem core_step {s : St} (h : Core [] s) (op : Op) (hl : LegalDoc s op = true)
     split
     · exact core_addFault h _
     · exact core_maybeProcess (core_modify h _ _ _)
+  | setRoutingCheckpoints c vs =>
+    dsimp only
+    split
+    · exact core_addFault h _
+    · exact core_setCheckpoints h _ _
   | processTransaction => exact core_processTransaction h
   | setTransactionUse b => exact core_congr h rfl rfl rfl rfl rfl
   | deleteRouter =>
